@@ -47,6 +47,11 @@ CHECKS = {
         note="Trusted: z3, SStr semantics (validated natively per path). Which query error is raised is not asserted. Exceptions raised inside transform/datastore bodies after type resolution are outside the property. Bounded by the 14 seeds, 1-2 symbolic characters, free strings of <=2 (quick) / <=4 (thorough) characters.",
         ref="§7 C17",
     ),
+    "C13": dict(
+        text="The real Event constructor / setters / to_json_dict are executed (a) in exact integer arithmetic on an arbitrary microsecond instant with a symbolic UTC offset and every duration kind, (b) with isoformat() rendered and iso8601 parsed back character by character for a symbolic microsecond, and (c) under an SMT encoding of IEEE double rounding (rounded reals, per binade) for the three float kernels: int(us/1000)*1000 for all 10^6 microsecond values, timedelta(seconds=float) for every real in [0, 30 d], and duration -> total_seconds() -> timedelta for every whole microsecond in [0, 30 d]. Sensitivity twins (truncation, tighter bound) must come back sat.",
+        note="Trusted: z3 (LIA/LRA), the rounded-real characterisation of round-to-nearest (over-approximation: unsat is sound), CPython's documented algorithms for int/int division, timedelta(seconds=), total_seconds(); iso8601 parsing modelled only for the shape isoformat() emits; jsonschema validation runs on the native replays only.",
+        ref="§4, §7 C13",
+    ),
 }
 
 NOT_YET = "check not built yet (work in progress; see DESIGN.md §7 for the plan)"
